@@ -18,10 +18,12 @@
            dates = - | <ns>;  version, head = 0 | 1
    <obs> = what the implementation's hit/miss counters reported for this read:
            1 (L1 hit) | 2 (L2 hit) | M (both missed) | B (bypass).  It is the
-           eviction oracle's choice: the model evicts the key from L1 (obs <> 1)
-           resp. from L2 (obs = M) before the corresponding lookup and reports the
-           tier that answered IN THE MODEL — a hit the model cannot reproduce
-           (nothing was inserted under that key) shows up as a different tier.
+           cache oracle's choice: a lookup the implementation reported as a miss
+           is performed as EStepMiss (the tier answers "nothing"; the model keeps
+           whatever was inserted), a reported hit as a plain EStep, and the model
+           reports the tier that answered IN THE MODEL - a hit the model cannot
+           reproduce (nothing was ever inserted under that key) shows up as a
+           different tier.
    Readers are numbered by arrival (R and S), from 0.
    <res> = ok:<len>:<fnv1a64 of the bytes>:<lo>-<hi>:<size>  (get, get_opts)
          | ok:<len>:<fnv>  (get_range) | ok:size=<n>  (head) | E<code> | PANIC | HANG *)
@@ -100,18 +102,16 @@ let run_line (line : string) : string =
     let i = !readers in
     incr readers;
     ev (EStart q);
-    let k = rkey q in
     let step () = ev (EStep (nat_of_int i)) in
+    let miss () = ev (EStepMiss (nat_of_int i)) in
     (match pc_of !st i with
      | PBypass -> (i, None, "B")
      | _ ->
-       if obs <> "1" then ev (EEvict1 k);
-       step ();
+       if obs = "1" then step () else miss ();
        (match pc_of !st i with
         | PDone r -> (i, Some r, "1")
         | _ ->
-          if obs = "M" then ev (EEvict2 k);
-          step ();
+          if obs = "M" then miss () else step ();
           (match pc_of !st i with
            | PPromote _ -> step ();
                (match pc_of !st i with PDone r -> (i, Some r, "2") | _ -> failwith "promotion did not complete")
